@@ -83,6 +83,9 @@ func (m *c11Mon) after(h *H, s *step) {
 	if tc.FormClientID != w.Opts.ClientID || tc.FormClientSecret != w.Opts.ClientSecret {
 		c.Violation("refresh-without-credentials", "step #%d: refresh exchange carried client_id=%q client_secret=%q", s.N, tc.FormClientID, tc.FormClientSecret)
 	}
+	// the statement speaks about sessions whose tokens HAVE expired; an exchange made while they are still valid (a
+	// refresh ahead of time) may fail without consequences - the request is then answered from the valid tokens
+	expired := exp.IDExp.Before(s.Now) || (w.Cfg.GetAccessToken() != nil && !exp.ATExp.IsZero() && exp.ATExp.Before(s.Now))
 	// did the exchange succeed, by the statement's terms?
 	success := m.served(tc) && strings.EqualFold(tc.Beh.TokenType, "bearer") || (m.served(tc) && tc.Beh.TokenType == "")
 	var merged tokSet
@@ -153,6 +156,13 @@ func (m *c11Mon) after(h *H, s *step) {
 	}
 	c.Class("refresh:failure")
 	m.refreshes[sid] = 0
+	if !expired {
+		c.Class("refresh:ahead-of-time-failed")
+		if !s.R.OK {
+			delete(m.cur, sid) // the service chose to end the session: nothing more is known about it
+		}
+		return
+	}
 	if s.R.OK {
 		c.Violation("refresh-failure-allowed", "step #%d: the refresh exchange or the validation of its result failed (behaviour %q, accepted=%v status=%d dropped=%q) but the request was answered OK", s.N, tc.Beh.Name, tc.Accepted, tc.Status, tc.Dropped)
 	}
